@@ -142,6 +142,12 @@ class C18(Check):
         self.numbers(ctx, cu, rng)
         self.float_assumption(ctx, rng)
         self.helpers(ctx, cu, rng)
+        self.hashes(ctx, cu, rng)
+        self.keywords(ctx, cu, rng)
+        self.colorfuncs(ctx, cu, rng)
+        self.too_large(ctx, cu)
+        self.strings(ctx, cu, rng)
+        self.urls(ctx, cu, rng)
 
     # -- defaults ----------------------------------------------------------------------------------
     def check_pref_defaults(self, ctx, cu):
@@ -478,15 +484,737 @@ class C18(Check):
             if m is not None and m != got:
                 ctx.disagree('helper.' + op, c, got, m)
 
+    # -- numbers beyond what int()/float() take ------------------------------------------------------
+    def too_large(self, ctx, cu):
+        import sys
+        lim = sys.get_int_max_str_digits()
+        items = []
+        for n in (lim - 1, lim, lim + 1, lim + 700):
+            items.append(('1' * n + 'px', None))
+            items.append(('0' * n, None))
+            items.append(('-' + '0' * (n - 1) + '7em', None))
+        for n in (300, 308, 309, 310, 400):
+            items.append(('1' + '0' * n + '.5px', None))
+            items.append(('1' + '0' * n + '.0', None))
+            items.append(('-9' * 1 + '9' * n + '.9%', None))
+        items.append(('179769313486231570814527423731704356798070567525844996598917476803157260780028538760589558632766878171540458953514382464234321326889464182768467546703537516986049910576551282076245490090389328944075868508455133942304583236903222948165808559332123348274797826204144723168738177180919299881250404026184124858368.0px', None))
+        items.append(('179769313486231580793728971405303415079934132710037826936173778980444968292764750946649017977587207096330286416692887910946555547851940402630657488671505820681908902000708383676273854845817711531764475730270069855571366959622842914819860834936475292719074168444365510704342711559699508093042880177904174497791.9px', None))
+        items.append(('179769313486231580793728971405303415079934132710037826936173778980444968292764750946649017977587207096330286416692887910946555547851940402630657488671505820681908902000708383676273854845817711531764475730270069855571366959622842914819860834936475292719074168444365510704342711559699508093042880177904174497792.0px', None))
+        self.number_batch(ctx, cu, items, [DEFAULT, MINI], 'large')
+
+    # -- strings and URLs through the value classes ----------------------------------------------------
+    HEXD = '0123456789abcdefABCDEF'
+    STR_ALPHA = ['a', 'b', 'z', 'Z', 'f', 'A', '0', '9', ' ', '"', "'", '\\', '(', ')', ',', ';', '\n', '\r', '\f', '\t',
+                 'é', '€', '\U0001F600', '/', '.', '#', '%', '{', '}', '*', '-', ':', '~', '!', '@', '\x7f', '\xa0']
+
+    def render_string(self, rng, content, quote):
+        """independent spelling choices for a CSS string with the given content (list of characters)"""
+        out = []
+        self.last_hexquote_after_bs = False
+        self.last_linecont = False
+        for i, c in enumerate(content):
+            nxt = content[i + 1] if i + 1 < len(content) else ''
+            r = rng.random()
+            must = c in '\n\r\f\\' or c == quote
+            if must or r < 0.25:
+                k = rng.random()
+                if c in '\n\r\f' or c in self.HEXD or k < 0.5:
+                    h = '%x' % ord(c)
+                    if rng.random() < 0.3:
+                        h = h.upper()
+                    if rng.random() < 0.3 and len(h) < 6:
+                        h = h.rjust(6, '0')
+                    # terminator: needed when the escape is shorter than six digits and a hex digit or white space follows
+                    if len(h) == 6 and rng.random() < 0.5 and not (nxt and nxt in ' \t\n\r\f'):
+                        term = ''
+                    elif nxt and (nxt in self.HEXD or nxt in ' \t\n\r\f') or rng.random() < 0.5 or len(h) < 6 and nxt == '':
+                        term = rng.choice([' ', ' ', '\n', '\t'])
+                    else:
+                        term = ''
+                    out.append('\\' + h + term)
+                    if (c == quote or c in '\n\r\f') and i > 0 and content[i - 1] == '\\':
+                        self.last_hexquote_after_bs = True
+                else:
+                    out.append('\\' + c)          # simple escape
+            else:
+                out.append(c)
+            if rng.random() < 0.03:
+                out.append('\\\n')              # line continuation denotes nothing
+                self.last_linecont = True
+        return quote + ''.join(out) + quote
+
+    @staticmethod
+    def css_string_denote(body):
+        """CSS 2.1 string content (between the quotes) -> characters; independent of cssutils and of the model"""
+        out, i, n = [], 0, len(body)
+        while i < n:
+            c = body[i]
+            if c != '\\':
+                out.append(c)
+                i += 1
+                continue
+            i += 1
+            if i >= n:
+                out.append('\\')
+                break
+            c = body[i]
+            if c in '0123456789abcdefABCDEF':
+                j = i
+                while j < n and j - i < 6 and body[j] in '0123456789abcdefABCDEF':
+                    j += 1
+                out.append(chr(int(body[i:j], 16)))
+                if body[j:j + 2] == '\r\n':
+                    j += 2
+                elif j < n and body[j] in ' \t\n\r\f':
+                    j += 1
+                i = j
+            elif c == '\n' or c == '\f':
+                i += 1
+            elif c == '\r':
+                i += 2 if body[i:i + 2] == '\r\n' else 1
+            else:
+                out.append(c)
+                i += 1
+        return ''.join(out)
+
+    @staticmethod
+    def stored_denote(r):
+        """what a stored value (simple escapes kept, hex escapes resolved) stands for"""
+        out, i = [], 0
+        while i < len(r):
+            if r[i] == '\\' and i + 1 < len(r):
+                out.append(r[i + 1])
+                i += 2
+            else:
+                out.append(r[i])
+                i += 1
+        return ''.join(out)
+
+    @staticmethod
+    def has_escaped_dquote(r):
+        """region of C18-escaped-dquote: a double quote preceded by an odd number of backslashes"""
+        run = 0
+        for c in r:
+            if c == '\\':
+                run += 1
+            else:
+                if c == '"' and run % 2 == 1:
+                    return True
+                run = 0
+        return False
+
+    def strings(self, ctx, cu, rng):
+        from cssutils.css import PropertyValue
+        fixed = [['a', '"', 'b'], ['a', "'", 'b'], ['\\'], ['a', '\\'], ['\\', '\\'], ['\n'], ['"'], ["'"], [], ['\\', '"'],
+                 ['\\', "'"], ['4', '1'], ['\\', '4', '1'], ['(', ')'], [' ', 'a', ' ']]
+        cases = []
+        for content in fixed:
+            for q in '"\'':
+                for _ in range(4):
+                    cases.append((content, q))
+        for _ in range(ctx.n(4000, 80000)):
+            content = [rng.choice(self.STR_ALPHA) for _ in range(rng.randint(0, 6))]
+            cases.append((content, rng.choice('"\'')))
+        lines, obs_l = [], []
+        for content, q in cases:
+            src = self.render_string(rng, content, q)
+            hexq = self.last_hexquote_after_bs
+            want = ''.join(content)
+            w0 = {'call': 'PropertyValue(text)', 'text': src}
+            if self.css_string_denote(src[1:-1]) != want:
+                raise RuntimeError('generator/denotation mismatch on %r' % src)
+            pv = PropertyValue(src)
+            if not pv.wellformed or pv.length != 1 or pv[0].type != 'STRING':
+                ctx.violate('a CSS string is one STRING value', w0, {'wellformed': pv.wellformed, 'length': pv.length})
+                continue
+            r = pv[0].value
+            kf = 'C18-backslash-then-hex-escape' if hexq else 'C18-escaped-dquote' if self.has_escaped_dquote(r) else None
+            nontriv = any(c in '"\'\\\n\r\f' or ord(c) > 126 for c in want) or '\\' in src
+            ctx.case(key=('str', src), nontrivial=nontriv, kind='string:%s' % ('region' if kf else 'plain' if not nontriv else 'escapes'),
+                     sample={'string': src, 'value': r, 'written': pv.cssText})
+            if self.stored_denote(r) != want:
+                ctx.violate('typed accessor: Value.value of a string stands for the characters written (simple escapes kept)',
+                            w0, {'value': r, 'want': want}, known='C18-backslash-then-hex-escape' if hexq else None)
+            for ps in (DEFAULT, MINI):
+                old = ps.apply(cu)
+                try:
+                    out = pv.cssText
+                finally:
+                    ps.restore(cu, old)
+                w = dict(w0, prefs=repr(ps), written=out)
+                good = len(out) >= 2 and out[0] == '"' and out[-1] == '"' and self.terminates_only_at_end(out)
+                if not good or self.css_string_denote(out[1:-1]) != want:
+                    ctx.violate('a string is written as a string with exactly the same characters', w, {'want': want}, known=kf)
+                    continue
+                pv2 = PropertyValue(out)
+                ok2 = pv2.wellformed and pv2.length == 1 and pv2[0].type == 'STRING' and pv2[0].value == r
+                if ok2:
+                    old = ps.apply(cu)
+                    try:
+                        ok2 = pv2.cssText == out
+                    finally:
+                        ps.restore(cu, old)
+                if not ok2:
+                    ctx.violate('the written string parses back to the same value and is written unchanged', w,
+                                {'value': r, 'reparsed': pv2[0].value if pv2.length else None}, known=kf)
+            # the model on the stored value: Value.cssText = fmtSimple STRING r
+            for ps in (DEFAULT, MINI):
+                lines.append('simple %s STRING %s' % (ps.proto(), enc(r)))
+                old = ps.apply(cu)
+                try:
+                    obs_l.append((src, r, ps, pv[0].cssText))
+                finally:
+                    ps.restore(cu, old)
+        out = ctx.driver(lines) if ctx.model_ok else []
+        for (src, r, ps, txt), m in zip(obs_l, out):
+            if m != 'OK ' + enc(txt):
+                ctx.disagree('Value(STRING).cssText', {'text': src, 'value': r, 'prefs': repr(ps)}, txt, m)
+
+    # -- URLs ----------------------------------------------------------------------------------------
+    def render_url_unquoted(self, rng, content):
+        """-> text; sets self.last_hexquote_after_bs and self.last_spell (per character: raw / hex / simple)"""
+        out = []
+        self.last_hexquote_after_bs = False
+        self.last_spell = []
+        for i, c in enumerate(content):
+            nxt = content[i + 1] if i + 1 < len(content) else ''
+            raw_ok = ('!' <= c <= '~' and c not in '"\'()\\') or ord(c) > 127
+            if not raw_ok or rng.random() < 0.2:
+                # `\)` is not usable in an unquoted URL (the tokenizer reads the backslash as a plain character), so
+                # a parenthesis is always written as a hex escape
+                if c in '\n\r\f)' or c in self.HEXD or rng.random() < 0.5:
+                    h = '%x' % ord(c)
+                    term = rng.choice([' ', '\t']) if (nxt == '' or nxt in self.HEXD or nxt in ' \t\n\r\f' or rng.random() < 0.5) else ''
+                    out.append('\\' + h + term)
+                    self.last_spell.append('hex')
+                    if c in '\n\r\f"\'' and i > 0 and content[i - 1] == '\\':
+                        self.last_hexquote_after_bs = True
+                else:
+                    out.append('\\' + c)
+                    self.last_spell.append('simple')
+            else:
+                out.append(c)
+                self.last_spell.append('raw')
+        return ''.join(out)
+
+    def urls(self, ctx, cu, rng):
+        from cssutils.css import PropertyValue
+        cases = []
+        for _ in range(ctx.n(4000, 80000)):
+            content = [rng.choice(self.STR_ALPHA) for _ in range(rng.randint(0, 6))]
+            cases.append(content)
+        lines, obs_l = [], []
+        for content in cases:
+            style = rng.choice(['u', 'u', '"', "'"])
+            want = ''.join(content)
+            pad1, pad2 = rng.choice(['', '', ' ', '\t ']), rng.choice(['', '', ' ', '\n'])
+            edge_ws = linecont = False
+            if style == 'u':
+                inner = self.render_url_unquoted(rng, content)
+                sp = self.last_spell
+                # white space (as Python's str.strip sees it) at the end however spelled, at the start unless
+                # written as a simple escape; or the same quote character at both ends, the first written as a hex escape
+                edge_ws = bool(want) and (want[-1].isspace() or (want[0].isspace() and sp[0] != 'simple')
+                                          or (want[0] in '"\'' and want[0] == want[-1] and sp[0] == 'hex'))
+            else:
+                inner = self.render_string(rng, content, style)
+                linecont = self.last_linecont
+            hexq = self.last_hexquote_after_bs
+            ctrl = any((ord(c) < 0x20 and not c.isspace()) or c == '\x7f' for c in want)
+            name = rng.choice(['url', 'url', 'URL', 'Url'])
+            src = name + '(' + pad1 + inner + pad2 + ')'
+            w0 = {'call': 'PropertyValue(text)', 'text': src}
+            pv = PropertyValue(src)
+            if not pv.wellformed or pv.length != 1 or pv[0].type != 'URI':
+                ctx.violate('a url() is one URI value', w0, {'wellformed': pv.wellformed, 'length': pv.length},
+                            known='C18-backslash-then-hex-escape' if hexq else None)
+                continue
+            r = pv[0].uri
+            kf_read = ('C18-backslash-then-hex-escape' if hexq else 'C18-url-line-continuation' if linecont
+                       else 'C18-url-edge-escape' if edge_ws else None)
+            nbs = len(r) - len(r.rstrip('\\'))
+            needs_quotes = any(c in '()\'";,' or c.isspace() for c in r)
+            kf = kf_read or ('C18-escaped-dquote' if self.has_escaped_dquote(r)
+                             else 'C18-url-trailing-backslash' if (needs_quotes and nbs >= 2 and nbs % 2 == 0)
+                             else 'C18-url-control-char' if ctrl else None)
+            ctx.case(key=('url', src), nontrivial=(src != 'url(' + want + ')'),
+                     kind='url:%s%s' % ('unquoted' if style == 'u' else 'quoted', ':region' if kf else ''),
+                     sample={'url': src, 'uri': r, 'written': pv.cssText})
+            if self.stored_denote(r) != want:
+                ctx.violate('typed accessor: URIValue.uri stands for the characters written (simple escapes kept)',
+                            w0, {'uri': r, 'want': want}, known=kf_read)
+            for ps in (DEFAULT, MINI):
+                old = ps.apply(cu)
+                try:
+                    out = pv.cssText
+                finally:
+                    ps.restore(cu, old)
+                w = dict(w0, prefs=repr(ps), written=out)
+                got = self.read_url(out)
+                if got is None or got != want:
+                    ctx.violate('a URL is written as url() with exactly the same characters', w, {'want': want, 'read_back': got},
+                                known=kf)
+                    continue
+                pv2 = PropertyValue(out)
+                ok2 = pv2.wellformed and pv2.length == 1 and pv2[0].type == 'URI' and pv2[0].uri == r
+                if ok2:
+                    old = ps.apply(cu)
+                    try:
+                        ok2 = pv2.cssText == out
+                    finally:
+                        ps.restore(cu, old)
+                if not ok2:
+                    ctx.violate('the written URL parses back to the same value and is written unchanged', w,
+                                {'uri': r, 'reparsed': pv2[0].uri if pv2.length and hasattr(pv2[0], 'uri') else None}, known=kf)
+                lines.append('simple %s URI %s' % (ps.proto(), enc(r)))
+                obs_l.append((src, r, ps, out))
+        out = ctx.driver(lines) if ctx.model_ok else []
+        for (src, r, ps, txt), m in zip(obs_l, out):
+            if m != 'OK ' + enc(txt):
+                ctx.disagree('URIValue.cssText', {'text': src, 'uri': r, 'prefs': repr(ps)}, txt, m)
+
+    def read_url(self, out):
+        """independent reading of a written url(): the characters it denotes, or None if it is not one URI"""
+        if not (out.startswith('url(') and out.endswith(')')):
+            return None
+        inner = out[4:-1]
+        if inner[:1] == '"':
+            if len(inner) < 2 or inner[-1] != '"' or not self.terminates_only_at_end(inner):
+                return None
+            return self.css_string_denote(inner[1:-1])
+        # unquoted: no white space, quotes or parentheses unless escaped
+        i = 0
+        while i < len(inner):
+            if inner[i] == '\\':
+                i += 2
+                continue
+            if inner[i] in ' \t\n\r\f"\'()':
+                return None
+            i += 1
+        return self.css_string_denote(inner)
+
+    @staticmethod
+    def terminates_only_at_end(out):
+        """the closing quote of a double-quoted string is its last character (no earlier unescaped quote, no raw line break)"""
+        i, n = 1, len(out)
+        while i < n - 1:
+            c = out[i]
+            if c == '\\':
+                i += 2
+                continue
+            if c == '"' or c in '\n\r\f':
+                return False
+            i += 1
+        return i == n - 1
+
+    # -- colours: shared ---------------------------------------------------------------------------
+    def color_obs(self, cu, text, prefsets):
+        """ColorValue(text): None when not well-formed, else (channels, {prefs key: cssText})"""
+        from cssutils.css import ColorValue
+        try:
+            cv = ColorValue(text)
+        except Exception as e:                      # noqa: BLE001 - reported as the observation
+            return ('EXC', type(e).__name__)
+        if not cv.wellformed:
+            return None
+        outs = {}
+        for ps in prefsets:
+            old = ps.apply(cu)
+            try:
+                outs[ps.key()] = cv.cssText
+            finally:
+                ps.restore(cu, old)
+        return ((cv.red, cv.green, cv.blue, cv.alpha), outs, cv.colorType)
+
+    @staticmethod
+    def chan_eq(impl, model_frac):
+        if isinstance(impl, bool):
+            return False
+        if isinstance(impl, int):
+            return Fraction(impl) == model_frac
+        if isinstance(impl, float):
+            return impl == model_frac.numerator / model_frac.denominator
+        return False
+
+    @staticmethod
+    def parse_rgba(words):
+        return [Fraction(int(w.split('/')[0]), int(w.split('/')[1])) for w in words]
+
+    # -- hash colours ------------------------------------------------------------------------------
+    def hashes(self, ctx, cu, rng):
+        hexd = '0123456789abcdefABCDEF'
+        texts = ['#' + a + b + c for a in hexd for b in hexd for c in hexd]
+        n6 = ctx.n(6000, 120000)
+        for i in range(n6):
+            r = rng.random()
+            if r < 0.3:                         # all pairs equal: must shorten
+                a, b, c = (rng.choice(hexd) for _ in range(3))
+                t = a + a + b + b + c + c
+            elif r < 0.5:                       # one pair differs only in case, or in one digit
+                a, b, c = (rng.choice(hexd) for _ in range(3))
+                pairs = [a + a, b + b, c + c]
+                k = rng.randrange(3)
+                x = pairs[k][0]
+                pairs[k] = x + (x.swapcase() if x.isalpha() and rng.random() < 0.6 else rng.choice(hexd))
+                t = ''.join(pairs)
+            else:
+                t = ''.join(rng.choice(hexd) for _ in range(6))
+            texts.append('#' + t)
+        # not colours
+        for n in (1, 2, 4, 5, 7, 8):
+            for _ in range(40):
+                texts.append('#' + ''.join(rng.choice(hexd) for _ in range(n)))
+        for _ in range(300):
+            n = rng.choice([3, 6])
+            t = [rng.choice(hexd) for _ in range(n)]
+            t[rng.randrange(n)] = rng.choice('gGzZ_-xé')
+            texts.append('#' + ''.join(t))
+        prefsets = [DEFAULT, PrefSet(False, False, ' ', ' '), MINI]
+        lines = []
+        for t in texts:
+            lines.append('hashchan %s' % enc(t))
+            for ps in prefsets:
+                lines.append('csimple %s HASH %s' % (ps.proto(), enc(t)))
+        out = ctx.driver(lines) if ctx.model_ok else [None] * len(lines)
+        li = 0
+        for t in texts:
+            m = out[li:li + 1 + len(prefsets)]
+            li += 1 + len(prefsets)
+            obs = self.color_obs(cu, t, prefsets)
+            body = t[1:]
+            is_col = len(body) in (3, 6) and all(c in hexd for c in body)
+            ctx.case(key=('hash', t), nontrivial=is_col, kind='hash:%d' % len(body),
+                     sample={'hash': t, 'impl': None if obs is None else obs[1].get(DEFAULT.key()) if len(obs) == 3 else obs})
+            # correspondence
+            if m[0] is not None:
+                if obs is None or (len(obs) == 2 and obs[0] == 'EXC'):
+                    got = 'NOMATCH' if obs is None else 'ERR ' + obs[1]
+                    if m[0] != got:
+                        ctx.disagree('ColorValue(hash) outcome', t, got, m[0])
+                elif not m[0].startswith('OK '):
+                    ctx.disagree('ColorValue(hash) outcome', t, 'OK', m[0])
+                else:
+                    ch = self.parse_rgba(m[0].split(' ')[1:5])
+                    if not all(self.chan_eq(a, b) for a, b in zip(obs[0], ch)):
+                        ctx.disagree('ColorValue(hash) channels', t, repr(obs[0]), m[0])
+                    for ps, mm in zip(prefsets, m[1:]):
+                        if mm != 'OK ' + enc(obs[1][ps.key()]):
+                            ctx.disagree('ColorValue(hash).cssText', {'hash': t, 'prefs': repr(ps)}, obs[1][ps.key()], mm)
+            # oracle
+            if not is_col:
+                if obs is not None:
+                    ctx.violate('only #rgb and #rrggbb are hash colours', {'call': 'ColorValue', 'text': t}, repr(obs))
+                continue
+            if obs is None or len(obs) == 2:
+                ctx.violate('every #rgb / #rrggbb is a colour', {'call': 'ColorValue', 'text': t}, repr(obs))
+                continue
+            want = tuple(int(body[i] * 2, 16) for i in range(3)) if len(body) == 3 else \
+                tuple(int(body[i:i + 2], 16) for i in (0, 2, 4))
+            if tuple(obs[0][:3]) != want or obs[0][3] != 1:
+                ctx.violate('typed accessors: red/green/blue/alpha of a hash colour', {'call': 'ColorValue', 'text': t},
+                            {'got': obs[0], 'want': want + (1,)})
+            for ps in prefsets:
+                w = obs[1][ps.key()]
+                wb = w[1:]
+                ok_form = w[:1] == '#' and len(wb) in (3, 6) and all(c in hexd for c in wb)
+                wch = None
+                if ok_form:
+                    wch = tuple(int(wb[i] * 2, 16) for i in range(3)) if len(wb) == 3 else \
+                        tuple(int(wb[i:i + 2], 16) for i in (0, 2, 4))
+                if wch != want:
+                    ctx.violate('hash shortening is lossless: the written hash has the same channels',
+                                {'call': 'ColorValue(text).cssText', 'text': t, 'prefs': repr(ps)}, {'written': w})
+                    continue
+                can = len(body) == 6 and body[0] == body[1] and body[2] == body[3] and body[4] == body[5]
+                exp = '#' + body[0] + body[2] + body[4] if (can and ps.mch) else t
+                if w != exp:
+                    ctx.violate('a hash is shortened exactly when minimizeColorHash is set and the three digit pairs '
+                                'are equal, and is otherwise written as it is',
+                                {'call': 'ColorValue(text).cssText', 'text': t, 'prefs': repr(ps)},
+                                {'written': w, 'want': exp})
+
+    # -- colour keywords ---------------------------------------------------------------------------
+    def keywords(self, ctx, cu, rng):
+        from harness.c18_css3colors import table
+        spec = table()
+        names = sorted(spec)
+        texts = []
+        for n in names:
+            texts += [n, n.upper(), n.title(), ''.join(rng.choice([c.lower(), c.upper()]) for c in n)]
+        for n in names:                      # near misses are not colours
+            texts += [n + 'x', n[:-1], 'x' + n]
+        lines = ['kw %s' % enc(t) for t in texts]
+        out = ctx.driver(lines) if ctx.model_ok else [None] * len(lines)
+        for t, m in zip(texts, out):
+            obs = self.color_obs(cu, t, [DEFAULT])
+            is_kw = t.lower() in spec
+            ctx.case(key=('kw', t), nontrivial=is_kw, kind='keyword' if is_kw else 'keyword:near-miss',
+                     sample={'keyword': t, 'impl': None if obs is None else repr(obs[0])})
+            if m is not None:
+                if obs is None:
+                    if m != 'ERR KeyError':
+                        ctx.disagree('ColorValue(keyword) outcome', t, 'not a colour', m)
+                elif not m.startswith('OK '):
+                    ctx.disagree('ColorValue(keyword) outcome', t, repr(obs[0]), m)
+                else:
+                    ch = self.parse_rgba(m.split(' ')[1:5])
+                    if not all(self.chan_eq(a, b) for a, b in zip(obs[0], ch)):
+                        ctx.disagree('ColorValue(keyword) channels', t, repr(obs[0]), m)
+            if is_kw:
+                want = spec[t.lower()]
+                if obs is None or len(obs) == 2 or tuple(obs[0][:3]) != want[:3] or Fraction(obs[0][3]) != Fraction(want[3]):
+                    ctx.violate('a colour keyword has the channels of the CSS3 colour table (any letter case)',
+                                {'call': 'ColorValue', 'text': t}, {'got': repr(obs and obs[0]), 'want': want})
+                elif obs[1][DEFAULT.key()] != t:
+                    ctx.violate('a colour keyword is written as it was', {'call': 'ColorValue(text).cssText', 'text': t},
+                                {'written': obs[1][DEFAULT.key()]})
+            elif obs is not None:
+                ctx.violate('only the CSS3 colour keywords are colour keywords', {'call': 'ColorValue', 'text': t}, repr(obs))
+
+    # -- colour functions --------------------------------------------------------------------------
+    def gen_num(self, rng, kind):
+        """a number literal for a colour argument: (text, is_percentage)"""
+        r = rng.random()
+        sign = rng.choice(['', '', '', '+', '-'])
+        if kind == 'int':
+            body = str(rng.choice([0, 1, 127, 128, 254, 255, 256, 300, rng.randrange(0, 256), rng.randrange(0, 400)]))
+        elif kind == 'pct':
+            body = rng.choice([str(rng.randrange(0, 101)), str(rng.randrange(0, 130)), '%d.%d' % (rng.randrange(0, 101), rng.randrange(0, 10)),
+                               '0', '100', '50', '%d.%03d' % (rng.randrange(0, 101), rng.randrange(0, 1000)), '.5', '00.50'])
+        elif kind == 'alpha':
+            body = rng.choice(['0', '1', '0.5', '.5', '0.3', '0.25', '1.0', '0.0', '0.%d' % rng.randrange(0, 1000), '2', '0.50'])
+            sign = rng.choice(['', '', '+', '-']) if r < 0.2 else ''
+        else:  # hue
+            body = rng.choice([str(rng.randrange(0, 361)), str(rng.randrange(0, 720)), '%d.%d' % (rng.randrange(0, 360), rng.randrange(0, 10)),
+                               '0', '60', '120', '180', '240', '300', '360'])
+        return sign + body
+
+    def gen_func(self, rng):
+        r = rng.random()
+        name = rng.choice(['rgb', 'rgb', 'rgba', 'hsl', 'hsl', 'hsla'])
+        if name in ('rgb', 'rgba'):
+            if rng.random() < 0.5:
+                args = [self.gen_num(rng, 'int') for _ in range(3)]
+            else:
+                args = [self.gen_num(rng, 'pct') + '%' for _ in range(3)]
+        else:
+            args = [self.gen_num(rng, 'hue'), self.gen_num(rng, 'pct') + '%', self.gen_num(rng, 'pct') + '%']
+        if name.endswith('a'):
+            args.append(self.gen_num(rng, 'alpha'))
+        # malformed variants
+        q = rng.random()
+        if q < 0.04:
+            args = args[:-1]
+        elif q < 0.08:
+            args.append(self.gen_num(rng, 'int'))
+        elif q < 0.12:
+            k = rng.randrange(len(args))
+            args[k] = args[k].rstrip('%') if args[k].endswith('%') else args[k] + '%'
+        elif q < 0.14:
+            args[rng.randrange(len(args))] += rng.choice(['px', 'deg', 'e3'])
+        elif q < 0.16:
+            k = rng.randrange(len(args))
+            args[k] = rng.choice(['- ', '+ ']) + args[k].lstrip('+-')
+        spelled = ''.join(rng.choice([c.lower(), c.upper()]) for c in name) if rng.random() < 0.3 else name
+        seps = [rng.choice([',', ', ', ' , ', ' ', ',  ']) for _ in args[1:]]
+        if rng.random() < 0.7:
+            seps = [seps[0] if seps else ','] * len(seps)
+        body = args[0] + ''.join(s + a for s, a in zip(seps, args[1:]))
+        lead = rng.choice(['', '', ' '])
+        trail = rng.choice(['', '', ' '])
+        close = ')' if rng.random() > 0.02 else ''
+        return spelled + '(' + lead + body + trail + close
+
+    def tokens_for_model(self, text):
+        from cssutils.tokenize2 import Tokenizer
+        words = []
+        for typ, val, _, _ in Tokenizer().tokenize(text):
+            if typ == 'FUNCTION':
+                words.append('F:' + enc(val))
+            elif typ == 'NUMBER':
+                words.append('N:' + enc(val))
+            elif typ == 'PERCENTAGE':
+                words.append('P:' + enc(val))
+            elif typ == 'S':
+                words.append('S')
+            elif typ == 'COMMENT':
+                words.append('M')
+            elif typ == 'CHAR' and val == ',':
+                words.append('C')
+            elif typ == 'CHAR' and val == ')':
+                words.append('R')
+            else:
+                words.append('O')
+        return words
+
+    def colorfuncs(self, ctx, cu, rng):
+        texts = ['rgb(1,2,3)', 'RGB( 1 , 2 , 3 )', 'rgba(1,2,3,0.5)', 'rgb(10%,20%,30%)', 'hsl(120, 100%, 50%)',
+                 'hsla(120,100%,50%,.3)', 'rgb(1 2 3)', 'rgb(-10%,110%,0.5%)', 'hsl(0,0%,10%)', 'hsl(0,0%,50%)',
+                 'Hsl(-120,50%,50%)', 'hsl(480.5,50.5%,20%)', 'rgb(1,2)', 'rgb(1,2,3', 'rgb(', 'rgba(1,2,3,50%)',
+                 'rgb(+1,-2,3)', 'rgb(1.5,2,3)', 'rgb(300,2,3)', 'rgb(0.5%,99.9%,100%)', 'rgb(33.333333%, 0%, 0%)']
+        texts += [self.gen_func(rng) for _ in range(ctx.n(5000, 100000))]
+        # hsl grid (integers): hue x saturation x lightness
+        grid = []
+        hs = range(0, 361, ctx.n(15, 3))
+        ss = range(0, 101, ctx.n(10, 5))
+        for h in hs:
+            for s_ in ss:
+                for l_ in ss:
+                    grid.append('hsl(%d,%d%%,%d%%)' % (h, s_, l_))
+        texts += grid
+        prefsets = [DEFAULT, MINI]
+        lines, keep = [], []
+        for t in texts:
+            words = self.tokens_for_model(t)
+            for ps in prefsets:
+                lines.append('cfunc %s %s' % (ps.proto(), ' '.join(words)))
+            keep.append(t)
+        out = ctx.driver(lines) if ctx.model_ok else [None] * len(lines)
+        li = 0
+        ties = 0
+        for t in keep:
+            ms = out[li:li + len(prefsets)]
+            li += len(prefsets)
+            obs = self.color_obs(cu, t, prefsets)
+            ok = obs is not None and len(obs) == 3
+            ctx.case(key=('cfunc', t), nontrivial=ok, kind='cfunc:' + (t.split('(')[0].lower() if ok else 'malformed'),
+                     sample={'colour': t, 'impl': None if not ok else [repr(obs[0]), obs[1][DEFAULT.key()]]})
+            for ps, m in zip(prefsets, ms):
+                if m is None:
+                    continue
+                if not ok:
+                    got = 'MALFORMED' if obs is None else 'ERR ' + obs[1]
+                    if m != got:
+                        ctx.disagree('ColorValue(function) outcome', t, got, m)
+                    continue
+                if not m.startswith('OK '):
+                    ctx.disagree('ColorValue(function) outcome', t, repr(obs[0]), m)
+                    continue
+                w = m.split(' ')
+                ch = self.parse_rgba(w[1:5])
+                tie = w[5] == '1'
+                ties += tie
+                for i, (a, b) in enumerate(zip(obs[0], ch)):
+                    if self.chan_eq(a, b):
+                        continue
+                    if tie and i < 3 and isinstance(a, int) and abs(Fraction(a) - b) == 1:
+                        ctx.count('hsl-tie-other-neighbour')
+                        continue
+                    ctx.disagree('ColorValue(function) channels', t, repr(obs[0]), m)
+                    break
+                if dec(w[6]) != obs[1][ps.key()]:
+                    ctx.disagree('ColorValue(function).cssText', {'text': t, 'prefs': repr(ps)}, obs[1][ps.key()], dec(w[6]))
+            if ok:
+                self.oracle_func(ctx, cu, t, obs, prefsets)
+        ctx.notes['hsl_grid'] = '%d grid points, %d replies with an exact tie' % (len(grid), ties)
+
+    ARG_RE = re.compile(r'^\s*([+-]?(?:[0-9]*\.[0-9]+|[0-9]+))(%?)\s*$')
+
+    def split_func(self, text):
+        """independent reading of a well-formed colour function: (name, [(Fraction, is_pct)], [separators])"""
+        m = re.match(r'^([A-Za-z]+)\((.*)\)\s*$', text, re.S)
+        if not m:
+            return None
+        name, body = m.group(1).lower(), m.group(2)
+        parts = re.split(r'(\s*,\s*|\s+)', body.strip())
+        args, seps = [], []
+        for i, x in enumerate(parts):
+            if i % 2:
+                seps.append(',' if ',' in x else ' ')
+            else:
+                a = self.ARG_RE.match(x)
+                if not a:
+                    return None
+                args.append((Fraction(a.group(1)), a.group(2) == '%'))
+        return name, args, seps
+
+    @staticmethod
+    def css3_hsl(h, s, l):
+        """CSS Color 3 section 4.2.4, in exact rationals (independent of colorsys and of the Lean model)"""
+        h = (h % 360) / 360
+        m2 = l * (s + 1) if l <= Fraction(1, 2) else l + s - l * s
+        m1 = l * 2 - m2
+
+        def hue(hh):
+            if hh < 0:
+                hh += 1
+            if hh > 1:
+                hh -= 1
+            if hh * 6 < 1:
+                return m1 + (m2 - m1) * hh * 6
+            if hh * 2 < 1:
+                return m2
+            if hh * 3 < 2:
+                return m1 + (m2 - m1) * (Fraction(2, 3) - hh) * 6
+            return m1
+        return hue(h + Fraction(1, 3)), hue(h), hue(h - Fraction(1, 3))
+
+    def oracle_func(self, ctx, cu, text, obs, prefsets):
+        sf = self.split_func(text)
+        w0 = {'call': 'ColorValue', 'text': text}
+        if sf is None:
+            ctx.violate('a colour function has the form name(arg sep arg sep arg [sep arg])', w0, repr(obs[0]))
+            return
+        name, args, seps = sf
+        ch = obs[0]
+        if name in ('rgb', 'rgba'):
+            want = []
+            for v, pct in args[:3]:
+                if pct:
+                    x = 255 * v / 100
+                    want.append(Fraction(math.trunc(x)))
+                else:
+                    want.append(v)
+            for got, w in zip(ch[:3], want):
+                if not self.chan_eq(got, w):
+                    ctx.violate('typed accessors: rgb() channels are the numbers written (percentages of 255, truncated)',
+                                w0, {'got': repr(ch), 'want': [str(x) for x in want]})
+                    break
+        else:
+            r = self.css3_hsl(args[0][0], args[1][0] / 100, args[2][0] / 100)
+            for got, x in zip(ch[:3], r):
+                if not isinstance(got, int) or abs(Fraction(got) - 255 * x) > Fraction(1, 2):
+                    ctx.violate('typed accessors: hsl() channels are the CSS3 conversion rounded to the nearest integer',
+                                w0, {'got': repr(ch), 'exact_255': [str(255 * y) for y in r]})
+                    break
+        wa = args[3][0] if len(args) > 3 else Fraction(1)
+        if not self.chan_eq(ch[3], wa):
+            ctx.violate('typed accessors: alpha is the number written (1 when absent)', w0, {'got': repr(ch[3]), 'want': str(wa)})
+        # serialisation keeps name, arguments (as numbers), separators; and it reparses to the same colour
+        for ps in prefsets:
+            wtext = obs[1][ps.key()]
+            w = dict(w0, prefs=repr(ps), written=wtext)
+            sf2 = self.split_func(wtext)
+            if sf2 is None or sf2[0] != name or sf2[1] != args or sf2[2] != seps:
+                ctx.violate('a colour function is written with the same name, the same arguments (as exact numbers, '
+                            'percent signs kept) in the same order and the same separators', w,
+                            {'read_back': repr(sf2), 'want': repr((name, args, seps))})
+                continue
+            obs2 = self.color_obs(cu, wtext, [ps])
+            if obs2 is None or len(obs2) == 2 or obs2[0] != ch or obs2[1][ps.key()] != wtext:
+                ctx.violate('the written colour function parses to the same channels and is written unchanged', w,
+                            {'reparsed': repr(obs2)})
+
     # ------------------------------------------------------------------------------------------
     def known(self, ctx, finding):
-        cu = cssutils_()
+        """replay the witness of a known finding: True while the implementation still shows the recorded behaviour"""
+        cssutils_()
+        from cssutils.css import PropertyValue, DimensionValue
         w = finding.get('witness', {}).get('data', {})
+        text = w.get('text')
+        if text is None:
+            return True
         if finding['id'] == 'C18-float-digits':
-            from cssutils.css import DimensionValue
-            out = DimensionValue(w['text']).cssText
-            return out == w['written']
-        return True
+            return DimensionValue(text).cssText == w['written']
+        pv = PropertyValue(text)
+        ok = True
+        if 'written' in w:
+            ok = ok and pv.cssText == w['written']
+        if 'value' in w:
+            ok = ok and pv.length == 1 and pv[0].value == w['value']
+        if 'uri' in w:
+            ok = ok and pv.length == 1 and getattr(pv[0], 'uri', None) == w['uri']
+        return ok
 
     def replay(self, ctx, data):
         cu = cssutils_()
